@@ -4778,14 +4778,20 @@ func ruleTransientSubscription(c *Ctx) {
 					switch x := r.(type) {
 					case *ssa.MapUpdate:
 						if x.Value == v {
-							bad = "the subscription made for one request is put into a map (" + p.InstrPos(x) + ")"
+							if _, local := stripConv(x.Map).(*ssa.MakeMap); !local {
+								bad = "the subscription made for one request is put into a map (" + p.InstrPos(x) + ")"
+							}
 						}
 					case *ssa.Store:
 						if x.Val != v {
 							continue
 						}
-						if _, isFA := x.Addr.(*ssa.FieldAddr); isFA {
-							bad = "the subscription made for one request is stored in a member (" + p.InstrPos(x) + ")"
+						if fa, isFA := x.Addr.(*ssa.FieldAddr); isFA {
+							// (a member of an object made in this very function — a parameter object handed from phase to
+							// phase of the request — is as private as a local)
+							if !freshBase(fa.X) {
+								bad = "the subscription made for one request is stored in a member (" + p.InstrPos(x) + ")"
+							}
 						}
 						if al, ok := x.Addr.(*ssa.Alloc); ok {
 							for _, r2 := range *al.Referrers() {
